@@ -79,6 +79,49 @@ CHECKS = {
              'model and implementation must agree bit for bit, plus a tolerance stream and a directed float-overshoot stream; an independent Fractions evaluation of the documented kernel and the conservation/additivity/permutation/roll relations decide violations.',
         note='Trusted: Lean kernel (+3 std axioms), the harness; float rounding on non-dyadic inputs is bounded (64 eps of the deposited mass), not modelled; int16/int32 index widths out of scope; numba codegen.',
         design='§7 C06'),
+    'C07': dict(
+        technique='Lean 4 proofs (rounding-separation arithmetic for stripe row sets; generic load/store interleaving model with a lost-update witness) + exhaustive decision-table correspondence of choosePartition with tsc_parallel + recorded row / starts-index footprints of the Python-level kernels + exact whole-run comparison + model-free row-set oracle on every accepted configuration',
+        text='rows_disjoint (for all g, np even with 3*np <= g, offsets in [0,1] cell, any two rational positions in distinct equal-parity stripes: their 3-row clouds are disjoint, also across the periodic wrap), two_stripes_safe, '
+             'accepted_is_safe (whatever the default choice/validation of tsc_parallel returns satisfies np = 1 or nthread <= 1 or np = 2 or (2 | np and 3 np <= g)), starts_index_inbounds (both loops of _tsc_parallel, odd np too), '
+             'Conc.disjoint_footprints_interleave / rmw_interleave (threads as load/store step lists: pairwise disjoint footprints imply EVERY schedule leaves the sequential result) with lost_update_witness, parallel_eq_serial(_stripe_order), narrow_stripe_races. '
+             'Tie to /repo on every run: all (n1d <= 64, nthread <= 24, npartition in {None,0,-1} u 1..n1d+1) decisions of the real tsc_parallel vs the model (exhaustive), rows written by _tsc_scatter.py_func on a recording grid vs rowsOf, '
+             'starts indices read by _tsc_parallel.py_func, 260 whole tsc_parallel runs (nthread 2..16, coord, sort, offsets, odd np with one thread) bit-identical to the single-thread grid on dyadic inputs, and a model-free oracle that computes the row set of every stripe of every accepted configuration from the real partition + kernel: two equal-parity stripes sharing a row is the failing input.',
+        note='PARTIAL: the interleaving model is sequentially consistent per array cell and quantifies over arbitrary schedules (over-approximating numba prange); the CPU memory model, the scheduler and one-ulp float stripe keys are trusted. parallel_eq_serial takes stripe contents as a function, linked to C17 by statement.',
+        design='§7 C07'),
+    'C09': dict(
+        technique='Lean 4 proofs (case analysis over the 8 enable patterns x chain position with linear arithmetic over Q; filter/partition induction for the catalogue; ring identities for the light-cone displacement) + differential run of the compiled model driver against the real gen_gal_cat / gen_cent / gen_sats on synthetic tables + independent Python oracle',
+        text='marker_eq_cumsum, threshold_rule (+_slices, _catalogue), at_most_one, nested_in_ic (+_scale), later_tracer_irrelevant (+_catalogue), disabled_tracer_captures_nothing, inherits_host (+_catalogue), rsd_only_los_box / _lightcone, rsd_off_identity, '
+             'order_and_ncent hold for all tables, tracer subsets, widths, randoms and RSD settings on a statement-level exact-rational model of the marker chain, fill pass, wrap and assembly. Tied to /repo each run by ~600 (quick) cases over all 7 tracer subsets x RSD modes x ranks x '
+             '{saturated-exact, generic} parameter sets, with randoms at 0, 1, on and beside markers and rows on the wrap edges; integers exact, floats exact on dyadic inputs and otherwise within 1e-12; an independent Python restatement of the rule decides violations. Detects the repaired r = 0 defect on 5f669f3.',
+        note='Occupation widths (erfc/log10/pow) and 1/sqrt are inputs computed with the package own functions; generic rows within 1e-13 of a marker are undecided (fastmath); thread structure is C10. The half-open box range needs -L/2 <= z < L/2 and |v_z/velz2kms| <= L (or |z| <= L/2 and strict <), shown sharp by an example.',
+        design='§7 C09'),
+    'C10': dict(
+        technique='Lean 4 proofs (structural induction over the thread-block boundary list; fill-pass write list = enumeration of the filter; permutation lemma for writes to distinct cells) + differential and independent-oracle runs of gen_gal_cat across 1..16 threads, exhaustive fast_concatenate, rint(linspace) block sweep',
+        text='twoPass_run, fill_is_filter (for every T >= 1, EVERY monotone block sequence incl. T > H and H = 0, and each class: write indices are exactly 0..N_c-1 each once and the array is the row-ordered filter), thread_count_independent, count_fill_agree, blocks_partition, '
+             'applyWrites_perm / schedule_independent (distinct cells: every order of the writes gives the same arrays), fastConcat_spec / _branches / _schedule_independent, searchsorted_pointwise, rint_linspace_blocks. Tied to /repo each run: gen_gal_cat(Nthread = 1..16) on host tables 0..40 and particle tables 0..200, '
+             'all 7 tracer subsets: every column, row order and Ncent bitwise identical to one thread, an independent row-by-row oracle, the model-predicted row placement; fast_concatenate exhaustive over N1, N2 <= 12, T <= 16; the real rint(linspace) boundaries for all H <= 300, T <= 64 checked to be a monotone 0..H block sequence (the premise of the theorems).',
+        note='PARTIAL: memory model and numba scheduler trusted (over-approximated by any order of writes to distinct cells); keep codes are inputs (C09); sizes below 2^40 for the float floor in the thread split; the real code runs in a child process because a broken fill pass corrupts the heap.',
+        design='§7 C10'),
+    'C14': dict(
+        technique='Lean 4 proof (invariant relating parser state, unread input and payloads still owed, by induction over the loop fuel and over the chunks) + correspondence of the compiled model driver with BloscCompressor.decompress/.compress on all chunkings of short streams, random large streams, compress round trips and asdf end-to-end reads',
+        text='feed_invariant, decompress_chunking_independent (every well-formed stream, EVERY chunking incl. empty and 1-byte chunks: the frames handed to the codec are exactly the payloads in order and the parser ends idle), decompress_same_for_all_chunkings, bytesOut_sum, '
+             'compress_decompress_id (any data, itemsize >= 1, block size >= itemsize, any codec with dec.enc = id and non-empty frames, every chunking), compress_zero_step, truncated_stream_detected, on a branch-by-branch model of the while-loop. Tied to /repo every run by diffing frames, lengths, per-chunk progress, write addresses and output '
+             'for all 2^(n-1) chunkings of 9 short stream profiles (~49 000 stream/chunking pairs quick), random streams of 1-40 frames with cuts forced inside every prefix byte, 491 compress cases, and asdf.open(...)[...][:] on blsc files.',
+        note='Trusted: the codec (a parameter; the blosc stand-in or a toy codec patched into it), the harness; _pos is dead state (final state is stated up to it).',
+        design='§7 C14'),
+    'C17': dict(
+        technique='Lean 4 proof (parallel counting sort = stable partition for every monotone thread-block sequence and every permutation of the write list) + seeded structured correspondence of the compiled model driver with partition_parallel (compiled and py_func) + independent permutation/stripe/starts oracle',
+        text='partition_stable (output = concatenation over stripes of the input filtered by key in input order, for every npartition, thread count, monotone block list and EVERY permutation of the scatter write list), scatter_indices_perm, starts_spec, partition_nthread_independent, '
+             'more_threads_than_particles, empty_input, linspaceBlocks_ok, weights_move_with_positions, key_spec, sorted_stripes. Tied to /repo each run on ~2700 cases: N in 0..200, nthread 1..16 (incl. > N), npartition 1..40, coord, f4/f8, weights, sort, duplicates, values on stripe boundaries and at Box (dyadic boxes so the float key is exact); '
+             'rows compared as (x,y,z,w) tuples, input vs a pre-call copy, starts; the oracle checks permutation, weights moving with positions, exact stripe membership, starts, sortedness without the model.',
+        note='Trusted: Lean kernel, harness, float key exact only on dyadic boxes, numba argsort by specification.',
+        design='§7 C17'),
+    'C20': dict(
+        technique='Lean 4 proof (validation precedes output; the client parse inverts emit, by induction over fields and files) + byte-for-byte correspondence of unpack_to_pipe and the pipe_asdf CLI with the model on synthetic uncompressed and blsc ASDF files',
+        text='emit_error_writes_nothing, emit_validation_complete (whenever tty / missing file / missing field is reported, zero bytes were written), parse_emit (for every valid request the client recovers, per field in request order, count, width and the per-file raw bytes concatenated in file order, payload length = count x width), '
+             'parse_unambiguous. Tied to /repo each run by ~130 cases (1-4 files, 1-4 fields incl. repeated, 1-D and (N,3)/(N,5) columns, widths 1-8, empty columns, blsc and uncompressed, missing file/field in the k-th position, tty pipe) compared byte for byte, plus the CLI in a subprocess; oracle = struct.pack + tobytes.',
+        note='Trusted: asdf, the blosc stand-in, a little-endian host; one item width per field assumed; 0-d columns and an empty file list are outside the quantifier (modelled, not generated).',
+        design='§7 C20'),
 }
 
 NOT_YET = {}
